@@ -161,6 +161,44 @@ theorem rejected_config_change_keeps_every_guard (s : State) (sao : Option Bool)
     simp only [step]
   rw [this]
 
+/-- every command of the history conforms to the table (in the state it is issued in). -/
+def AllConform (s : State) : List Exec → Prop
+  | [] => True
+  | e :: es => conforms s e = true ∧ AllConform (step s e) es
+
+instance decAllConform : (s : State) → (es : List Exec) → Decidable (AllConform s es)
+  | _, [] => isTrue trivial
+  | s, e :: es =>
+    have := decAllConform (step s e) es
+    by unfold AllConform; infer_instance
+
+/-- The premise "append-only before each command" of `append_only_history_keeps_files` is DERIVED for every conforming
+history that contains neither an `apply_config(set_append_only = false)` that passes validation nor an
+`init_with_config` with the flag off — whatever else it contains: refused commands, config changes rejected by a
+validation even when they carry `set_append_only(false)` (`.rejected (some false) _`), key changes, re-arming …
+Hence on such a history (any length) every snapshot / index / pack file present at the start survives. -/
+theorem append_only_persists_without_disarm (es : List Exec) (s : State) (hao : s.appendOnly = true)
+    (hn : ∀ e ∈ es, e.cmd ≠ .applyConfig (.setAppendOnly false) ∧ e.cmd ≠ .initWithConfig false)
+    (hc : AllConform s es) : AllAppendOnly s es := by
+  induction es generalizing s with
+  | nil => trivial
+  | cons e es ih =>
+    obtain ⟨hce, hrest⟩ := hc
+    refine ⟨hao, hce, ih (step s e) ?_ (fun e' he' => hn e' (List.mem_cons_of_mem _ he')) hrest⟩
+    cases hs : (step s e).appendOnly with
+    | true => rfl
+    | false =>
+      have := append_only_left_only_by_config s e hao hs
+      have hne := hn e (by simp)
+      rcases this with h | h
+      · exact absurd h hne.1
+      · exact absurd h hne.2
+
+theorem files_survive_without_disarm (es : List Exec) (s : State) (hao : s.appendOnly = true)
+    (hn : ∀ e ∈ es, e.cmd ≠ .applyConfig (.setAppendOnly false) ∧ e.cmd ≠ .initWithConfig false)
+    (hc : AllConform s es) (f : File) (hf : f ∈ s.files) (hp : f.isProtected = true) : f ∈ (es.foldl step s).files :=
+  history_keeps es s (append_only_persists_without_disarm es s hao hn hc) f hf hp
+
 /-- the append-only flag of a config as the guards read it (`config.append_only == Some(true)`). -/
 def flagOf (c : Rustic.Config.ConfigFile) : Bool := c.appendOnly == some true
 
@@ -403,6 +441,11 @@ example : run false true (.applyConfig (.rejected (some true) .invalidInput)) = 
 /-- the seeded change C15-1 as a table history: rejected `set_append_only(false)` + bad percent, then forget — still refused -/
 example : run false (step ⟨true, [⟨.snapshot, 1⟩], false⟩ ⟨.applyConfig (.rejected (some false) .invalidInput), []⟩).appendOnly
     .deleteSnapshots = .refused .repository := rfl
+/-- a history with a rejected `set_append_only(false)` in front of every destructive command: the files survive -/
+example : AllConform ⟨true, [⟨.snapshot, 1⟩, ⟨.pack, 2⟩], false⟩
+    [⟨.applyConfig (.rejected (some false) .invalidInput), []⟩, ⟨.deleteSnapshots, []⟩,
+     ⟨.applyConfig (.rejected (some false) .internal), []⟩, ⟨.prune, []⟩, ⟨.backup false, [.write ⟨.snapshot, 3⟩]⟩] := by
+  decide
 example : classify { Rustic.Config.ConfigFile.new 2 7 9 with appendOnly := some true }
     { setAppendOnly := some false, setMinPackPct := some 200 } = .rejected (some false) .invalidInput := by decide
 example : run true false .prune = .runs [.write .pack, .write .index, .remove .index, .remove .pack] := rfl
